@@ -40,9 +40,12 @@ pub fn dir_check(sess: &Session) -> String {
         let extra: Vec<&String> = actual.iter().filter(|a| !expected.contains(a)).collect();
         let missing: Vec<&String> = expected.iter().filter(|a| !actual.contains(a)).collect();
         format!(
-            "extra[{}]missing[{}]",
+            "extra[{}]missing[{}]cur[man={};wal={};live={}]",
             extra.iter().map(|s| s.replace("db/", "")).collect::<Vec<_>>().join(";"),
-            missing.iter().map(|s| s.replace("db/", "")).collect::<Vec<_>>().join(";")
+            missing.iter().map(|s| s.replace("db/", "")).collect::<Vec<_>>().join(";"),
+            d.manifest_file_number,
+            d.curr_wal_number,
+            d.live_versions.len()
         )
     }
 }
